@@ -1414,7 +1414,11 @@ class GaussianState(State):
 
             return reduced_state.get_phaseshifter_expectation_value(reduced_angles)
 
-        D_phi = np.diag(1 / (np.tan(np_angles / 2)).repeat(2))
+        # NOTE: The complex covariance matrix is ordered as
+        # (a_1, ..., a_d, a_1^dagger, ..., a_d^dagger), so D(phi) is the direct sum of
+        # two copies of diag(cot(phi / 2)), and not the modewise repetition.
+        cot_half_angles = 1 / np.tan(np_angles / 2)
+        D_phi = np.diag(np.concatenate([cot_half_angles, cot_half_angles]))
 
         cov_D_phi = (cov + 1j * D_phi) / 2
 
